@@ -52,4 +52,20 @@ CHECKS = {
         quick=dict(stages=[st(2500, timeout=900)]),
         thorough=dict(stages=[st(12000, shards=16, timeout=3000)]),
     ),
+    "C06": dict(
+        pkg="c06", level="exploration",
+        rule="rapid-generated (stateful model, parameters in domain, series of 2..80 steps, initial states from the model or a previous run, 1-4 split points incl. 1-step segments); oracle: outputs and final states of the segmented run (states carried) equal the uninterrupted run "
+             "(numerically equal up to 1e-9 relative round-off; StorageRouting within 50x its solver mass-balance tolerance). Non-trivial = >=1 split and the state changed before it; distinct = distinct case",
+        assumptions=["StorageRouting tolerance: |dS| <= 50*1e-3 m^3, |dQ| <= 50*1e-3/DeltaT (the index flow carried inside one call only seeds the solver)"],
+        quick=dict(stages=[st(3000, timeout=900)]),
+        thorough=dict(stages=[st(6000, shards=16, timeout=3000)]),
+    ),
+    "C14": dict(
+        pkg="c14", level="exploration",
+        rule="rapid-generated (any catalogued model, parameters/inputs/states in domain; a history of 0-4 other runs on the same object with other parameters or on other models; a cut t and a replacement or truncation of the inputs after t); oracle (metamorphic): bit-identical outputs and final states on repeat / fresh object / after the history; outputs[0..t] bit-identical under any change after t; inputs and parameters unchanged. "
+             "Non-trivial = history involving >= 2 model types, or an interior cut on a stateful model; distinct = distinct case",
+        assumptions=[],
+        quick=dict(stages=[st(2500, timeout=900)]),
+        thorough=dict(stages=[st(5000, shards=16, timeout=3000)]),
+    ),
 }
